@@ -16,6 +16,7 @@ import (
 	"math"
 	"runtime"
 	"sort"
+	"strconv"
 	"strings"
 	"sync"
 	"sync/atomic"
@@ -88,33 +89,123 @@ type Cfg struct {
 	// (Setup(UseEpoch, UseNodeMode, NodeAtLowest) on top of the package defaults)
 	// instead of the hook VerifSetConfig; the hook only restores it afterwards.
 	ViaSetup bool `json:"via_setup,omitempty"`
+	// SetupCalls (with ViaSetup): the Setup calls a program makes, in order, on top
+	// of the package defaults; each call is a list of options in the order given:
+	// "epoch" / "mode" / "lowest" = UseEpoch(EpochMs) / UseNodeMode(NodeBits) /
+	// NodeAtLowest(); "epoch=<ms>" / "mode=<bits>" = the same options with another
+	// value (overridden by a later one). Empty: one call with all options in the
+	// order epoch, mode, lowest. The calls must lead to this configuration when
+	// every option means what it documents (checked by setupModel, else skipped).
+	SetupCalls [][]string `json:"setup_calls,omitempty"`
 }
 
 // install makes the configuration current and returns the function restoring the
 // previous one. With ViaSetup the package is first put back to its documented
 // defaults (epoch 2021-01-01, 1024 nodes, node above the step) - Setup cannot
-// switch node-at-lowest off again - and then configured the way a program does.
+// switch node-at-lowest off again - and then configured the way a program does:
+// through one or several Setup calls with the options in the drawn order. What
+// the options document: UseEpoch sets the epoch, UseNodeMode the node width,
+// NodeAtLowest the position of the node; Setup applies them, in order, to the
+// configuration in force (an option not given leaves its setting alone).
 func (c Cfg) install(res *vkit.Result) (restore func()) {
 	if !c.ViaSetup {
 		return snowflake.VerifSetConfig(c.EpochMs, c.NodeBits, c.NodeAtLowest)
 	}
 	res.Class("config-via-Setup")
 	restore = snowflake.VerifSetConfig(ms2021, 10, false)
-	var mode snowflake.NodeBitsMode
-	switch c.NodeBits {
-	case 8:
-		mode = snowflake.Node256
-	case 9:
-		mode = snowflake.Node512
-	default:
-		mode = snowflake.Node1024
+	calls := c.SetupCalls
+	if len(calls) == 0 {
+		calls = [][]string{{"epoch", "mode"}}
+		if c.NodeAtLowest {
+			calls[0] = append(calls[0], "lowest")
+		}
+	} else {
+		res.Class(fmt.Sprintf("setup-calls=%d", len(calls)))
 	}
-	opts := []snowflake.Option{snowflake.UseEpoch(msTime(c.EpochMs, 0)), snowflake.UseNodeMode(mode)}
-	if c.NodeAtLowest {
-		opts = append(opts, snowflake.NodeAtLowest())
+	for k, call := range calls {
+		var opts []snowflake.Option
+		sawLowest := false
+		for _, o := range call {
+			name, val := c.setupOption(o)
+			switch name {
+			case "epoch":
+				opts = append(opts, snowflake.UseEpoch(msTime(val, 0)))
+			case "mode":
+				var mode snowflake.NodeBitsMode
+				switch val {
+				case 8:
+					mode = snowflake.Node256
+				case 9:
+					mode = snowflake.Node512
+				default:
+					mode = snowflake.Node1024
+				}
+				opts = append(opts, snowflake.UseNodeMode(mode))
+				if sawLowest {
+					res.Class("setup: NodeAtLowest before UseNodeMode")
+				}
+			case "lowest":
+				opts = append(opts, snowflake.NodeAtLowest())
+				sawLowest = true
+			}
+		}
+		if k > 0 && len(call) < 3 {
+			res.Class("setup: later call gives only some options")
+		}
+		snowflake.Setup(opts...)
 	}
-	snowflake.Setup(opts...)
 	return restore
+}
+
+// setupOption parses one element of SetupCalls: the option's name and value.
+func (c Cfg) setupOption(o string) (name string, val int64) {
+	switch o {
+	case "epoch":
+		return "epoch", c.EpochMs
+	case "mode":
+		return "mode", int64(c.NodeBits)
+	case "lowest":
+		return "lowest", 1
+	}
+	if i := strings.IndexByte(o, '='); i > 0 {
+		v, err := strconv.ParseInt(o[i+1:], 10, 64)
+		if err == nil && (o[:i] == "epoch" && v >= 0 && v <= nanoEndMs || o[:i] == "mode" && v >= 8 && v <= 10) {
+			return o[:i], v
+		}
+	}
+	return "", 0
+}
+
+// setupModel is the documented meaning of the Setup calls, stated independently:
+// starting from the package defaults every option overwrites its own setting,
+// later ones win, nothing else changes. ok: the calls are well-formed and lead
+// to the configuration of the case.
+func (c Cfg) setupModel() (ok bool) {
+	if len(c.SetupCalls) == 0 {
+		return true
+	}
+	if !c.ViaSetup || len(c.SetupCalls) > 4 {
+		return false
+	}
+	epoch, bits, lowest := int64(ms2021), int64(10), false
+	for _, call := range c.SetupCalls {
+		if len(call) > 8 {
+			return false
+		}
+		for _, o := range call {
+			switch name, val := c.setupOption(o); name {
+			case "epoch":
+				epoch = val
+			case "mode":
+				bits = val
+			case "lowest":
+				lowest = true
+			default:
+				return false
+			}
+		}
+	}
+	return epoch == c.EpochMs && bits == int64(c.NodeBits) && lowest == c.NodeAtLowest
 }
 
 func (c Cfg) layout() layout { return layout{uint(c.NodeBits), c.NodeAtLowest} }
@@ -127,7 +218,7 @@ func (c Cfg) valid() bool {
 	// int64-nanosecond horizon can be configured through the package's API; the
 	// hook could install one, the check does not.
 	// (a node outside the field is a legal argument: the constructors have to refuse it)
-	return c.Node >= -1<<40 && c.Node <= 1<<40 && c.EpochMs >= 0 && c.EpochMs <= nanoEndMs
+	return c.Node >= -1<<40 && c.Node <= 1<<40 && c.EpochMs >= 0 && c.EpochMs <= nanoEndMs && c.setupModel()
 }
 
 func (c Cfg) classes(res *vkit.Result) {
@@ -206,7 +297,71 @@ func genCfg(t *rapid.T, lateEpochs bool) Cfg {
 		c.EpochMs = rapid.Int64Range(ms2000, ms2026).Draw(t, "epoch")
 	}
 	c.ViaSetup = rapid.IntRange(0, 3).Draw(t, "viaSetup") == 0
+	if c.ViaSetup && rapid.IntRange(0, 3).Draw(t, "setupPlan") != 0 {
+		c.SetupCalls = genSetupCalls(t, c)
+	}
 	return c
+}
+
+// genSetupCalls draws the Setup calls of a program that ends up with the
+// configuration c: the options in any order, spread over 1-3 calls (a call may
+// be empty), options that restate a default left out or given, and options with
+// another value given before the final one (a first configuration that a later
+// call changes in part).
+func genSetupCalls(t *rapid.T, c Cfg) [][]string {
+	var opts []string
+	// earlier, different values: always before the final option of the same kind
+	decoyEpoch := rapid.IntRange(0, 2).Draw(t, "decoyEpoch") == 0
+	decoyMode := rapid.IntRange(0, 2).Draw(t, "decoyMode") == 0
+	if c.EpochMs != ms2021 || decoyEpoch || rapid.Bool().Draw(t, "restateEpoch") {
+		opts = append(opts, "epoch")
+	}
+	if c.NodeBits != 10 || decoyMode || rapid.Bool().Draw(t, "restateMode") {
+		opts = append(opts, "mode")
+	}
+	if c.NodeAtLowest {
+		opts = append(opts, "lowest")
+		if rapid.IntRange(0, 3).Draw(t, "lowestTwice") == 0 {
+			opts = append(opts, "lowest")
+		}
+	}
+	if decoyEpoch {
+		opts = append(opts, "epoch="+strconv.FormatInt(rapid.SampledFrom([]int64{0, ms2000, ms2021, ms2026, ms2100}).Draw(t, "decoyEpochMs"), 10))
+	}
+	if decoyMode {
+		opts = append(opts, "mode="+strconv.Itoa(rapid.SampledFrom([]int{8, 9, 10}).Draw(t, "decoyBits")))
+	}
+	if len(opts) > 1 {
+		perm := rapid.Permutation(opts).Draw(t, "optionOrder")
+		opts = perm
+	}
+	// a value given before the final one: swap where the draw put it behind
+	for _, kind := range []string{"epoch", "mode"} {
+		final, decoy := -1, -1
+		for i, o := range opts {
+			if o == kind {
+				final = i
+			} else if strings.HasPrefix(o, kind+"=") {
+				decoy = i
+			}
+		}
+		if final >= 0 && decoy > final {
+			opts[final], opts[decoy] = opts[decoy], opts[final]
+		}
+	}
+	ncalls := rapid.IntRange(1, 3).Draw(t, "setupCalls")
+	calls := make([][]string, ncalls)
+	for i := range calls {
+		calls[i] = []string{}
+	}
+	k := 0
+	for _, o := range opts {
+		if k < ncalls-1 && rapid.IntRange(0, 2).Draw(t, "nextCall") == 0 {
+			k++
+		}
+		calls[k] = append(calls[k], o)
+	}
+	return calls
 }
 
 // ---------------------------------------------------------------------------
@@ -368,6 +523,12 @@ func ExecHard(c HardCase) *vkit.Result {
 		if haveReading && off < lastReading {
 			res.Class("rewind")
 			res.NonTrivial = true
+			if lastReading-off > 10*msYear {
+				res.Class("rewind>10y")
+			}
+		}
+		if haveReading && off-lastReading > 10*msYear {
+			res.Class("forward-jump>10y")
 		}
 		if haveReading && off == lastReading || s.Calls >= 2 {
 			res.Class("stall")
@@ -450,7 +611,9 @@ const (
 // a rewind or a restart lead can have: milliseconds, seconds, minutes, hours,
 // days, years.
 func drawSpan(t *rapid.T, label string) int64 {
-	switch rapid.IntRange(0, 7).Draw(t, label+"Scale") {
+	switch rapid.IntRange(0, 8).Draw(t, label+"Scale") {
+	case 8:
+		return drawFar(t, label)
 	case 0:
 		return rapid.Int64Range(1, 10000).Draw(t, label+"Ms")
 	case 1:
@@ -469,6 +632,17 @@ func drawSpan(t *rapid.T, label string) int64 {
 	default:
 		return rapid.Int64Range(1, 10*msYear).Draw(t, label+"Any")
 	}
+}
+
+// drawFar draws a span of decades: just beyond 10 / 20 / 50 years (where a
+// plausibility test on a clock step would put its threshold) or anything from 10
+// to 60 years. The generators place the trajectory so that it fits the timestamp
+// width of the layout (about 69 / 139 / 278 years); what does not fit is skipped.
+func drawFar(t *rapid.T, label string) int64 {
+	if rapid.Bool().Draw(t, label+"FarRound") {
+		return rapid.SampledFrom([]int64{10 * msYear, 10*msYear + 3*msDay, 11 * msYear, 20 * msYear, 25 * msYear, 50 * msYear, 60 * msYear}).Draw(t, label+"FarY") + rapid.Int64Range(0, 2).Draw(t, label+"Over")
+	}
+	return rapid.Int64Range(10*msYear, 60*msYear).Draw(t, label+"Far")
 }
 
 func genSegs(t *rapid.T) []Seg {
@@ -509,7 +683,11 @@ func genSegs(t *rapid.T) []Seg {
 			case 6:
 				s.DeltaMs = rapid.SampledFrom(bigJumps).Draw(t, "jump")
 			default:
-				s.DeltaMs = rapid.Int64Range(1, 5*31536000000).Draw(t, "bigjump")
+				if rapid.IntRange(0, 2).Draw(t, "farJump") == 0 {
+					s.DeltaMs = drawFar(t, "jump") // decades ahead (a wrong date was set)
+				} else {
+					s.DeltaMs = rapid.Int64Range(1, 5*31536000000).Draw(t, "bigjump")
+				}
 			}
 		}
 		if rapid.IntRange(0, 2).Draw(t, "callsKind") == 0 {
@@ -637,8 +815,8 @@ func GenHard(t *rapid.T) HardCase {
 	return c
 }
 
-const ruleHard = "G: config {epoch 0 | 1 | 1970..2000 | 2000..2026 | 2100..2262-04-11 (the last epoch Setup can express), nodeBits 8/9/10, node-at-lowest, node 0/1/max/random} installed via VerifSetConfig or (1 in 4) via the public Setup(UseEpoch, UseNodeMode, NodeAtLowest) on top of the defaults; " +
-	"1-8 clock segments (delta: rewind 1 ms..10 s or on any scale s/min/h/d/y up to 10 y, return from the last forward jump (+-1 ms, +-1 s), 0, +1 ms, +small, +1 s..5 y; calls 1,2,3,4095,4096,4097,8192,9000 or 1..200; optional sub-ms part) " +
+const ruleHard = "G: config {epoch 0 | 1 | 1970..2000 | 2000..2026 | 2100..2262-04-11 (the last epoch Setup can express), nodeBits 8/9/10, node-at-lowest, node 0/1/max/random} installed via VerifSetConfig or (1 in 4) via the public Setup(UseEpoch, UseNodeMode, NodeAtLowest) on top of the defaults - there, in 3 of 4 cases, as a drawn program: options in any order over 1-3 Setup calls, later calls giving only some options, restated defaults, first values overridden later; " +
+	"1-8 clock segments (delta: rewind 1 ms..10 s or on any scale s/min/h/d/y up to 10 y and decades (10..60 y), return from the last forward jump (+-1 ms, +-1 s), 0, +1 ms, +small, +1 s..5 y, +10..60 y (incl. just beyond 10 / 20 / 50 y) as far as the timestamp width allows; calls 1,2,3,4095,4096,4097,8192,9000 or 1..200; optional sub-ms part) " +
 	"read through VerifSetNow; restarts NewNode(node,last issued id) or NewNode(node, id ahead of the clock by 0 ms..years); start offset before the epoch (ms .. years, never before 1970), 0, anywhere, " +
 	"at the top of the timestamp width minus computed headroom, at / after the int64-nanosecond horizon (2262-04-11). " +
 	"O: strict chain of ids incl. across restarts (first id after NewNode(node,last) > last), sign bit clear, decoded node == configured, decoded timestamp >= clock - epoch (own decoder). " +
@@ -656,7 +834,8 @@ var PartHard = vkit.Part[HardCase]{
 var PartHardEdges = vkit.Part[HardCase]{
 	Property: Property, Name: "hard-edges",
 	Rule: "fixed list: nodeBits 8/9/10 x node-at-lowest x node {1 (config via hook), max (config via Setup)} x epoch {0 (1970), 2000, default 2021, 2200, 2262-04-11 horizon} x start {-1, 0, horizon-1, 2270-01-01, top of width} x " +
-		"{stall 4097 calls; 2 calls, rewind 1 s, 4097 calls, restart with last id, +1 ms, 2 calls; 2 calls, rewind 5 min, 2 calls, rewind 1 h, 2 calls, rewind 1 d + restart with last id, 2 calls, restart with an id 1 d ahead, 2 calls}; " +
+		"{stall 4097 calls; 2 calls, rewind 1 s, 4097 calls, restart with last id, +1 ms, 2 calls; 2 calls, rewind 5 min, 2 calls, rewind 1 h, 2 calls, rewind 1 d + restart with last id, 2 calls, restart with an id 1 d ahead, 2 calls; from the epoch: 2 calls, +11 y, 2 calls, +50 y, 2 calls, -55 y, 2 calls}; " +
+		"for epoch 2000 and the largest node: the configuration reached through 3-4 other sequences of Setup calls (options in another order, spread over several calls, a first call with other values); " +
 		"starts outside the width and trajectories reaching before 1970 are left out. Same oracle and NT rule as part hard.",
 	Exec: ExecHard,
 }
@@ -683,6 +862,32 @@ func HardEdgeCases() []HardCase {
 								HardCase{Cfg: cfg, StartOffMs: st, Segs: []Seg{{Calls: 4097}}},
 								HardCase{Cfg: cfg, StartOffMs: st, Segs: []Seg{{Calls: 2}, {DeltaMs: -1000, Calls: 4097, SubNs: 999999}, {Restart: 1, Calls: 1}, {DeltaMs: 1001, Calls: 2}}},
 							)
+						}
+						if st == 0 {
+							// decades: the clock jumps 11 and 50 years ahead and comes back by 55 (inside every width)
+							out = append(out, HardCase{Cfg: cfg, StartOffMs: st, Segs: []Seg{{Calls: 2}, {DeltaMs: 11 * msYear, Calls: 2}, {DeltaMs: 50 * msYear, Calls: 2}, {DeltaMs: -55 * msYear, Calls: 2}}})
+						}
+						if st == 0 && ep == ms2000 && node != 1 {
+							// the same configuration reached through other Setup calls: option order, several calls, a later call that gives only some options
+							plans := [][][]string{
+								{{"mode", "epoch"}},
+								{{"mode"}, {"epoch"}},
+								{{"epoch"}, {"mode"}},
+								{{"epoch=0", "mode=9"}, {}, {"mode", "epoch"}},
+							}
+							if low {
+								plans = [][][]string{
+									{{"lowest", "mode", "epoch"}},
+									{{"mode", "lowest"}, {"epoch"}},
+									{{"epoch", "lowest"}, {"mode"}},
+									{{"lowest"}, {"epoch=0", "mode=9"}, {"mode", "epoch"}},
+								}
+							}
+							for _, plan := range plans {
+								pc := cfg
+								pc.SetupCalls = plan
+								out = append(out, HardCase{Cfg: pc, StartOffMs: st, Segs: []Seg{{Calls: 3}, {DeltaMs: 1, Calls: 2}}})
+							}
 						}
 						// far rewinds: 5 min, 1 h, restart after another day back, restart with an id more than a day ahead
 						if ep+st-(5*msMinute+1)-(msHour+1)-msDay >= 0 {
@@ -1049,6 +1254,7 @@ type rec struct {
 	start, end uint64
 	id         int64
 	g, i       int
+	before     int64 // part adv, real clock: the machine's clock (ms after the epoch) read before the call
 }
 
 func (c RaceCase) newScript() (*script, string) {
@@ -1139,6 +1345,9 @@ func ExecRace(c RaceCase) *vkit.Result {
 				if c.Segs[k].Delta < -msHour {
 					res.Class("script-rewind>1h")
 				}
+			}
+			if k > 0 && c.Segs[k].Delta > 10*msYear {
+				res.Class("script-jump>10y")
 			}
 		}
 		if c.InitAheadMs < -1 || c.InitAheadMs > maxDelta || maxOff+c.InitAheadMs+int64(total/4096)+8 > lay.maxTs() {
@@ -1398,7 +1607,13 @@ func GenRace(t *rapid.T) RaceCase {
 				case 4:
 					s.Delta = rapid.Int64Range(2, 50).Draw(t, "fwd")
 				default:
-					s.Delta = rapid.Int64Range(1, fwd).Draw(t, "jump")
+					if far := rapid.IntRange(0, 3).Draw(t, "farJump"); scales && far == 0 {
+						s.Delta = drawSpan(t, "jump") // ms: seconds .. decades
+					} else if scales && far == 1 {
+						s.Delta = drawFar(t, "jump") // decades
+					} else {
+						s.Delta = rapid.Int64Range(1, fwd).Draw(t, "jump")
+					}
 				}
 			}
 			s.Ticks = rapid.SampledFrom([]int{1, 3, 30, 300, 3000, 13000, 30000}).Draw(t, "ticks")
@@ -1491,7 +1706,7 @@ func GenRace(t *rapid.T) RaceCase {
 }
 
 const ruleRace = "G: one generator (HardNode on a scripted clock via VerifSetNow / MonoNode on the real clock / UnixNanoID created with a resume value 30 years back, now, one hour or 100 years ahead of the machine clock (or absolute), called through a drawn per-call mix of GenID() and GenIDByTS(scripted ts)) shared by 2,3,4,8,16 goroutines, " +
-	"50-3000 calls each, GOMAXPROCS 2/4/8; the scripted value is a function of one global atomic tick counter (1-10 segments: rewind (HardNode: 1 ms..10 s or any scale up to 10 y), 0, +1, +small, +jump; 1..30000 ticks each; HardNode created with 0 or an id 0 ms..1 y ahead) and every call is bracketed " +
+	"50-3000 calls each, GOMAXPROCS 2/4/8; the scripted value is a function of one global atomic tick counter (1-10 segments: rewind (HardNode: 1 ms..10 s or any scale up to 60 y), 0, +1, +small, +jump (HardNode: up to a day, any scale, or decades up to 60 y); 1..30000 ticks each; HardNode created with 0 or an id 0 ms..1 y ahead) and every call is bracketed " +
 	"by ticks of the same counter. O: all ids distinct; each goroutine's ids strictly increasing; call a returned before call b started => id_a < id_b (sweep over intervals); node field; " +
 	"HardNode timestamp >= the least clock value handed out during the call's interval; nano ids above the resume value. Part race-shared runs from a -race binary, part shared-plain is the same generator and oracle in the plain binary. NT: calls of different goroutines overlapped in tick time."
 
@@ -1618,6 +1833,9 @@ func ExecMulti(c MultiCase) *vkit.Result {
 		}
 		if off > maxOff {
 			maxOff = off
+		}
+		if op.DeltaMs > 10*msYear {
+			res.Class("forward-jump>10y")
 		}
 		if c.Gens[op.G].Kind == "hard" {
 			hardCalls += op.N
@@ -1834,6 +2052,8 @@ func GenMulti(t *rapid.T) MultiCase {
 				op.DeltaMs = -drawSpan(t, "rewind")
 			case 4:
 				op.DeltaMs = rapid.SampledFrom(bigJumps).Draw(t, "jump")
+			case 5:
+				op.DeltaMs = drawSpan(t, "jump") // forward on any scale: ms .. decades
 			}
 		} else {
 			switch rapid.IntRange(0, 7).Draw(t, "tsKind") {
@@ -1902,7 +2122,7 @@ func GenMulti(t *rapid.T) MultiCase {
 
 const ruleMulti = "G: config as part hard (epoch up to 2026 when a MonoNode takes part); 2-3 snowflake generators with pairwise different in-field node numbers {0,1,2,max-1,max,random} - HardNodes on one injected clock " +
 	"(created with 0 or with an id 0 ms..1 d ahead of the clock), in 1 of 4 cases one or more MonoNodes on the real clock - and in half of the cases two unix-nano generators (locked / lock-free, any initial current), all alive together; " +
-	"3-24 operations {generator, 1..7 or 4096/4097 calls, clock delta -1/0/+1/+small/rewind on any scale/+jump, HardNode optionally restarted with its last id first; nano: GenIDByTS(ts) on a ts walk}. " +
+	"3-24 operations {generator, 1..7 or 4096/4097 calls, clock delta -1/0/+1/+small/rewind on any scale/+jump up to 1 y/+jump on any scale up to 60 y, HardNode optionally restarted with its last id first; nano: GenIDByTS(ts) on a ts walk}. " +
 	"O: per generator: ids strictly increasing and above the id / current it was (re)created with; every snowflake id decodes (own decoder) to the node of the generator that returned it; HardNode timestamp >= clock - epoch; " +
 	"nano: a ts above the generator's own previous id is returned unchanged; MonoNode epoch carries a monotonic reading. NT: some generator is called, then another one of its family, then the first again."
 
